@@ -102,36 +102,36 @@ Definition parse_fmt_types (s : bytes) : res (bytes * list ty) := pft PLit s.
 (* Go fmt: formatter state and primitives (fmt/format.go)              *)
 (* ------------------------------------------------------------------ *)
 
-Record fst : Type := mkF {
+Record fmts : Type := mkF {
   wid : Z; widP : bool; prec : Z; precP : bool;
   fminus : bool; fplus : bool; fsharp : bool; fspace : bool; fzero : bool }.
 
-Definition f0 : fst := mkF 0 false 0 false false false false false false.
+Definition f0 : fmts := mkF 0 false 0 false false false false false false.
 
-Definition set_wid (f : fst) (w : Z) (p : bool) : fst :=
+Definition set_wid (f : fmts) (w : Z) (p : bool) : fmts :=
   mkF w p (prec f) (precP f) (fminus f) (fplus f) (fsharp f) (fspace f) (fzero f).
-Definition set_prec (f : fst) (n : Z) (p : bool) : fst :=
+Definition set_prec (f : fmts) (n : Z) (p : bool) : fmts :=
   mkF (wid f) (widP f) n p (fminus f) (fplus f) (fsharp f) (fspace f) (fzero f).
-Definition set_minus (f : fst) (v : bool) : fst :=
+Definition set_minus (f : fmts) (v : bool) : fmts :=
   mkF (wid f) (widP f) (prec f) (precP f) v (fplus f) (fsharp f) (fspace f) (fzero f).
-Definition set_plus (f : fst) (v : bool) : fst :=
+Definition set_plus (f : fmts) (v : bool) : fmts :=
   mkF (wid f) (widP f) (prec f) (precP f) (fminus f) v (fsharp f) (fspace f) (fzero f).
-Definition set_sharp (f : fst) (v : bool) : fst :=
+Definition set_sharp (f : fmts) (v : bool) : fmts :=
   mkF (wid f) (widP f) (prec f) (precP f) (fminus f) (fplus f) v (fspace f) (fzero f).
-Definition set_space (f : fst) (v : bool) : fst :=
+Definition set_space (f : fmts) (v : bool) : fmts :=
   mkF (wid f) (widP f) (prec f) (precP f) (fminus f) (fplus f) (fsharp f) v (fzero f).
-Definition set_zero (f : fst) (v : bool) : fst :=
+Definition set_zero (f : fmts) (v : bool) : fmts :=
   mkF (wid f) (widP f) (prec f) (precP f) (fminus f) (fplus f) (fsharp f) (fspace f) v.
 
 (* n copies of c; nothing for n <= 0 *)
 Definition padding (n : Z) (c : Z) : bytes := Z.iter n (cons c) [].
 
 (* writePadding: zero padding only to the left *)
-Definition pad_char (f : fst) : Z := if fzero f && negb (fminus f) then 48 else 32.
-Definition write_padding (f : fst) (n : Z) : bytes := padding n (pad_char f).
+Definition pad_char (f : fmts) : Z := if fzero f && negb (fminus f) then 48 else 32.
+Definition write_padding (f : fmts) (n : Z) : bytes := padding n (pad_char f).
 
 (* pad / padString: width counts runes (utf8.RuneCount) *)
-Definition pad (f : fst) (b : bytes) : bytes :=
+Definition pad (f : fmts) (b : bytes) : bytes :=
   if negb (widP f) || (wid f =? 0) then b
   else let width := wid f - rune_count b in
        if negb (fminus f) then write_padding f width ++ b else b ++ write_padding f width.
@@ -152,7 +152,7 @@ Definition digits_of (base u : Z) (upper : bool) : bytes :=
 
 (* fmt.fmtInteger.  [v] is the mathematical value: of the int64 when [signed],
    of the uint64 otherwise.  base is 10, 8 or 16. *)
-Definition fmt_integer (f : fst) (v : Z) (base : Z) (signed upper : bool) : bytes :=
+Definition fmt_integer (f : fmts) (v : Z) (base : Z) (signed upper : bool) : bytes :=
   let negative := signed && (v <? 0) in
   let u := if negative then - v else v in
   if precP f && (prec f =? 0) && (u =? 0) then padding (wid f) 32
@@ -174,16 +174,16 @@ Definition fmt_integer (f : fst) (v : Z) (base : Z) (signed upper : bool) : byte
     pad (set_zero f false) ds.
 
 (* truncateString / truncate: keep the first prec runes *)
-Definition truncate (f : fst) (s : bytes) : bytes :=
+Definition truncate (f : fmts) (s : bytes) : bytes :=
   if precP f then concat (ztake (prec f) (runes s)) else s.
 
 (* fmtS / fmtBs *)
-Definition fmt_s (f : fst) (s : bytes) : bytes := pad f (truncate f s).
+Definition fmt_s (f : fmts) (s : bytes) : bytes := pad f (truncate f s).
 
 Definition hex2 (upper : bool) (c : Z) : bytes :=
   [digit_char upper (c / 16); digit_char upper (c mod 16)].
 
-Fixpoint sbx_body (f : fst) (upper first : bool) (s : bytes) : bytes :=
+Fixpoint sbx_body (f : fmts) (upper first : bool) (s : bytes) : bytes :=
   match s with
   | [] => []
   | c :: t =>
@@ -193,7 +193,7 @@ Fixpoint sbx_body (f : fst) (upper first : bool) (s : bytes) : bytes :=
   end.
 
 (* fmtSbx *)
-Definition fmt_sbx (f : fst) (s : bytes) (upper : bool) : bytes :=
+Definition fmt_sbx (f : fmts) (s : bytes) (upper : bool) : bytes :=
   let length := if precP f && (prec f <? zlen s) then prec f else zlen s in
   let width := 2 * length in
   if width >? 0 then
@@ -224,7 +224,7 @@ Definition type_name (a : garg) : bytes :=
 
 (* pp.fmtInteger: the verbs that are valid for integers (among those that can
    reach Go from goawk: d o x X v); None = badVerb *)
-Definition int_verb (f : fst) (v : Z) (signed : bool) (verb : Z) : option bytes :=
+Definition int_verb (f : fmts) (v : Z) (signed : bool) (verb : Z) : option bytes :=
   if (verb =? 100) || (verb =? 118) then Some (fmt_integer f v 10 signed false)
   else if verb =? 111 then Some (fmt_integer f v 8 signed false)
   else if verb =? 120 then Some (fmt_integer f v 16 signed false)
@@ -242,13 +242,13 @@ Fixpoint join (sep : bytes) (l : list bytes) : bytes :=
   end.
 
 (* one element of a []byte printed through reflection (printValue, Uint8) *)
-Definition byte_elem (f : fst) (verb : Z) (c : Z) : bytes :=
+Definition byte_elem (f : fmts) (verb : Z) (c : Z) : bytes :=
   match int_verb f c false verb with
   | Some o => o
   | None => bad_verb verb s_uint8 (fmt_integer f c 10 false false)
   end.
 
-Definition print_arg (f : fst) (a : garg) (verb : Z) : res bytes :=
+Definition print_arg (f : fmts) (a : garg) (verb : Z) : res bytes :=
   match a with
   | GInt v => Ok (match int_verb f v true verb with
                   | Some o => o
@@ -279,7 +279,7 @@ Definition too_large (x : Z) : bool := (x >? 1000000) || (x <? -1000000).
 
 (* flags loop of doPrintf (the fast path for lower-case verbs gives the same
    result as the general path and is not modelled separately) *)
-Fixpoint go_flags (s : bytes) (f : fst) : fst * bytes :=
+Fixpoint go_flags (s : bytes) (f : fmts) : fmts * bytes :=
   match s with
   | c :: t =>
       if c =? 35 then go_flags t (set_sharp f true)
@@ -324,7 +324,7 @@ Definition starts_bracket (s : bytes) : bool :=
    format loop is left).  An explicit argument index '[' is never produced by
    parseFmtTypes; the model declines it. *)
 (* "Do we have width?" *)
-Definition go_width (f : fst) (s1 : bytes) (args : list garg) : bytes * fst * bytes * list garg :=
+Definition go_width (f : fmts) (s1 : bytes) (args : list garg) : bytes * fmts * bytes * list garg :=
   match s1 with
   | 42 :: t =>
       let '(num, ok, args') := int_from_arg args in
@@ -337,7 +337,7 @@ Definition go_width (f : fst) (s1 : bytes) (args : list garg) : bytes * fst * by
   end.
 
 (* "Do we have precision?"  (if i+1 < end && format[i] == '.') *)
-Definition go_prec (f : fst) (s2 : bytes) (args : list garg) : res (bytes * fst * bytes * list garg) :=
+Definition go_prec (f : fmts) (s2 : bytes) (args : list garg) : res (bytes * fmts * bytes * list garg) :=
   match s2 with
   | 46 :: ((_ :: _) as t) =>
       if starts_bracket t then Unmod else
@@ -354,7 +354,7 @@ Definition go_prec (f : fst) (s2 : bytes) (args : list garg) : res (bytes * fst 
   end.
 
 (* the verb: NOVERB / %% / MISSING / printArg *)
-Definition go_verb (out : bytes) (f : fst) (s3 : bytes) (args : list garg)
+Definition go_verb (out : bytes) (f : fmts) (s3 : bytes) (args : list garg)
   : res (bytes * bytes * list garg * bool) :=
   if starts_bracket s3 then Unmod else
   match s3 with
